@@ -222,7 +222,8 @@ def r20c(ctx):
 
 EXPLANATION = ("Static decision of the gates that make OpenPGP objects tamper-evident: the signature validity predicate is evaluated "
                "piecewise over the whole hash enum and ten time scenarios against the statement; every Signature::Verify* accepts only with "
-               "CheckIntegrity's verdict; CheckIntegrity returns true only on success of the dispatched verifier; Message::Decrypt returns "
+               "CheckIntegrity's verdict; CheckIntegrity returns true only on success of the dispatched verifier, and each of the four "
+               "AsymmetricVerify* functions returns the success code only with gcry_pk_verify's verdict; Message::Decrypt returns "
                "true only through AEAD success or CheckMDC on an integrity-protected packet; CheckMDC compares the recomputed hash; AEAD "
                "plaintext is released only after its tag check. That altered data fails the cryptographic checks and agreement with GnuPG "
                "are not decided.")
